@@ -793,3 +793,55 @@ Definition run_decode_params (p q : params) (f : list Z) : val :=
   | Err e => VErr e
   | Ok bs => vdecoded (decode_frame_model q 0 bs)
   end.
+
+(* ======================================================================
+   decode_frame, the WHOLE entry point (frame.py:459-512), every lossless
+   syntax: bit-packed native path, enum conversions, planar-configuration
+   guard, then
+     - native words through pydicom (a longer value is read as several
+       frames; with planar configuration 1 EVERY frame is read plane by plane),
+     - encapsulated syntaxes through pydicom.encaps.encapsulate (an empty
+       value is refused with ValueError, an odd one is padded with one zero
+       byte) and the decoder of the syntax (RLE Lossless: the model above;
+       JPEG-LS / JPEG 2000: [codec_decode]).
+   [index] only matters on the bit-packed path. *)
+Definition planar_frames (n s : nat) (ws : list Z) : list Z :=
+  flat_map (planar_read n s) (chunks (n * s) ws).
+
+Definition entry_guard (p : params) : bool :=
+  negb ((p_pixrep p =? 0) || (p_pixrep p =? 1))
+  || is_none (p_pi p)
+  || (1 <? spp p) && is_none (p_planar p)
+  || (1 <? spp p) && negb (optZ_eqb (p_planar p) 0 || optZ_eqb (p_planar p) 1).
+
+Definition decode_frame_entry (codec_decode : params -> list Z -> res decoded)
+           (p : params) (index : Z) (value : list Z) : res decoded :=
+  if is_native default_tables p && (p_balloc p =? 1) then
+    decode_bits (p_rows p) (p_cols p) (spp p) index value
+  else if entry_guard p then Err EV
+  else if is_native default_tables p then
+    match decode_words p value with
+    | Ok (DArr sh vals) =>
+        if (1 <? spp p) && optZ_eqb (p_planar p) 1
+        then Ok (DArr sh (planar_frames (Z.to_nat (p_rows p * p_cols p)) (Z.to_nat (spp p)) vals))
+        else Ok (DArr sh vals)
+    | r => r
+    end
+  else
+    match value with
+    | [] => Err EV
+    | _ => if ts_eqb (p_ts p) TRLE then decode_rle p (pad_even value)
+           else codec_decode p (pad_even value)
+    end.
+
+(* encode with [p]; damage the bytes ([cut] as in [damage]); decode with [q]
+   (any parameter, the syntax included, may differ) at frame index [index] *)
+Definition run_decode_entry (p q : params) (index cut : Z) (f : list Z) : val :=
+  match (if ts_eqb (p_ts p) TRLE then encode_rle default_tables p f else encode_frame default_tables p f) with
+  | Err e => VErr e
+  | Ok bs => vdecoded (decode_frame_entry (fun _ _ => Err ERT) q index (damage cut bs))
+  end.
+
+(* 1-bit JPEG 2000 Lossless (frame.py:333-341): an integer array is converted
+   with astype(bool) before it reaches the codec *)
+Definition as_bool (f : list Z) : list Z := map (fun v => if v =? 0 then 0 else 1) f.
